@@ -37,6 +37,7 @@ class Layout:
         for w, x in zip(self.weights, limbs): tot = tot + x.scale(1 << w)
         return tot
     def size(self): return self.cell * self.n
+    def off(self, i): return self.cell * i
 
 FE51 = Layout("FieldElement51", 8, [51 * i for i in range(5)])
 FE2625 = Layout("FieldElement2625", 4, [0, 26, 51, 77, 102, 128, 153, 179, 204, 230])
@@ -67,12 +68,12 @@ class Run:
                 if self.ctx.shadow is None: self.ctx.shadow = {}
                 v = self.ctx.input(vn, 0, bounds[i], shadow=self.shadow[vn])
             else: v = self.ctx.input(vn, 0, bounds[i])
-            self.it.store(Ptr(p.r, layout.cell * i), v, layout.cell); limbs.append(v)
+            self.it.store(Ptr(p.r, layout.off(i)), v, layout.cell); limbs.append(v)
         self.inputs[name] = (layout, limbs, p)
         return p, limbs
     def const_arg(self, name, layout, values):
         p = self.it.new_region(name, layout.size())
-        for i, v in enumerate(values): self.it.store(Ptr(p.r, layout.cell * i), Poly.const(v), layout.cell)
+        for i, v in enumerate(values): self.it.store(Ptr(p.r, layout.off(i)), Poly.const(v), layout.cell)
         return p
     def out(self, name, layout):
         p = self.it.new_region(name, layout.size())
@@ -83,7 +84,7 @@ class Run:
         self.exec_s += time.time() - t0
         return r
     def read(self, p, layout):
-        return [self.it.P(self.it.load(Ptr(p.r, p.o + layout.cell * i), layout.cell)) for i in range(layout.n)]
+        return [self.it.P(self.it.load(Ptr(p.r, p.o + layout.off(i)), layout.cell)) for i in range(layout.n)]
     def assume(self, cond): self.ctx.assume.append(cond)
 
 def lt(a, b): return Cond("cmp", "lt", a, b if isinstance(b, Poly) else Poly.const(b))
